@@ -1,12 +1,14 @@
 /* Driver for property C17: initialisation from a (damaged) acoustic-model directory.
  *
  * One process = one execution.  The script (stdin) is
- *   mode mmap|read          how model files reach the library: "mmap" = the library's own mmio.c (mmap);
+ *   mode mmap|read <model> <kind> <tag>
+ *                           starts the execution (Header event; model number, damaged kind and tag are echoed).
+ *                           How model files reach the library: "mmap" = the library's own mmio.c (mmap);
  *                           "read" = the file's bytes are read into a heap block of exactly the file's length
  *                           (s3file.h: "memory-mapping (or reading) a file"), so that AddressSanitizer sees every
  *                           access outside the file's bytes.  Done by wrapping the four mmio_* functions at link time.
  *   set <key> <value>       extra configuration for every decoder_init below (e.g. dict)
- *   jsgf <path> / audio <path>   grammar and raw audio used after "reload"
+ *   jsgf <path> / audio <path> / expect <words>   grammar and raw audio used after "reload", expected hypothesis
  *   view <kind> <path> <a> <b> <swap> <off:len,off:len,...|->
  *                           record length and the listed byte ranges of the file the next load will see, plus the s3
  *                           checksum of the 32-bit words in [a,b) (a < 0: none)
@@ -112,7 +114,7 @@ __wrap_mmio_file_size(mmio_file_t *mf)
 #define MAXSET 16
 static char *set_k[MAXSET], *set_v[MAXSET];
 static int nset;
-static char *jsgf_path, *audio_path;
+static char *jsgf_path, *audio_path, *expect;
 
 static void
 emit_dims(decoder_t *d)
@@ -211,7 +213,7 @@ do_view(char *args)
             fprintf(vt_out, "%s%d", i ? "," : "", buf[off + i]);
         fprintf(vt_out, "]}");
     }
-    fprintf(vt_out, "],\"sum\":[");
+    fprintf(vt_out, "],\"swap\":%s,\"sum\":[", swap ? "true" : "false");
     if (buf && a >= 0 && b <= (long)len && a <= b && (b - a) % 4 == 0) {
         /* the s3 checksum of s3file.c over the words of [a,b), as two 16-bit halves */
         uint32 sum = 0;
@@ -239,7 +241,7 @@ do_decode(decoder_t *d)
         return;
     rv = decoder_set_jsgf_file(d, jsgf_path);
     if (rv != 0) {
-        fprintf(vt_out, "{\"e\":\"decode\",\"jsgf\":%d,\"utt\":-9,\"hyp\":\"\"}\n", rv);
+        fprintf(vt_out, "{\"e\":\"decode\",\"jsgf\":%d,\"utt\":-9,\"hyp\":\"\",\"expect\":\"\"}\n", rv);
         return;
     }
     if ((fh = fopen(audio_path, "rb")) == NULL) {
@@ -256,6 +258,8 @@ do_decode(decoder_t *d)
     hyp = decoder_hyp(d, NULL);
     fprintf(vt_out, "{\"e\":\"decode\",\"jsgf\":0,\"utt\":%d,\"hyp\":", rv);
     vt_str(vt_out, hyp ? hyp : "");
+    fprintf(vt_out, ",\"expect\":");
+    vt_str(vt_out, expect ? expect : "");
     fprintf(vt_out, "}\n");
 }
 
@@ -274,8 +278,14 @@ main(int argc, char **argv)
         if (nl)
             *nl = 0;
         if (!strncmp(line, "mode ", 5)) {
-            read_mode = !strcmp(line + 5, "read");
-            fprintf(vt_out, "{\"e\":\"Header\",\"mode\":\"%s\"}\n", read_mode ? "read" : "mmap");
+            char mode[16] = "", kind[64] = "-", tag[256] = "-";
+            int model = 0;
+            sscanf(line + 5, "%15s %d %63s %255s", mode, &model, kind, tag);
+            read_mode = !strcmp(mode, "read");
+            fprintf(vt_out, "{\"e\":\"Header\",\"mode\":\"%s\",\"model\":%d,\"kind\":\"%s\",\"tag\":", read_mode ? "read" : "mmap",
+                    model, kind);
+            vt_str(vt_out, tag);
+            fprintf(vt_out, "}\n");
         } else if (!strncmp(line, "set ", 4)) {
             char *sp = strchr(line + 4, ' ');
             if (sp && nset < MAXSET) {
@@ -287,6 +297,8 @@ main(int argc, char **argv)
             jsgf_path = strdup(line + 5);
         } else if (!strncmp(line, "audio ", 6)) {
             audio_path = strdup(line + 6);
+        } else if (!strncmp(line, "expect ", 7)) {
+            expect = strdup(line + 7);
         } else if (!strncmp(line, "view ", 5)) {
             do_view(line + 5);
         } else if (!strncmp(line, "load ", 5) || !strncmp(line, "reload ", 7)) {
@@ -319,6 +331,7 @@ main(int argc, char **argv)
         }
         free(jsgf_path);
         free(audio_path);
+        free(expect);
     }
     vt_close();
     return 0;
